@@ -19,7 +19,7 @@ import os
 import vlib
 
 REAL_MB = 20010
-KEEP = {"Cfg", "Call", "Ret", "Tick", "Minute", "Fill", "Snap", "Quiesced"}
+KEEP = {"Cfg", "Call", "Ret", "Tick", "Minute", "Fill", "MailReject", "Snap", "Quiesced"}
 
 CFG = """SPECIFICATION %(spec)s
 CONSTANTS
@@ -37,6 +37,7 @@ CONSTANTS
   FillOK = %(fill)s
   Devs = {%(devs)s}
   Eager = %(eager)s
+  Remote = %(remote)s
   Gen = %(gen)s
 %(tail)s
 """
@@ -55,7 +56,7 @@ def _names(prefix, n, quote):
 
 def cfg(msgs=2, ips=2, srcs=2, dsts=1, nall="0,1", nip="0,1", nsrc="0,1", ndst="0,1", mb="1",
         maxops=1, fill=False, devs=(), eager=False, gen=False, tail=MC_TAIL, strings=False,
-        probers=0, spec="Spec"):
+        probers=0, spec="Spec", remote=False):
     m = _names("m", msgs, strings)
     p = _names("q", probers, strings)
     if probers:
@@ -65,7 +66,7 @@ def cfg(msgs=2, ips=2, srcs=2, dsts=1, nall="0,1", nip="0,1", nsrc="0,1", ndst="
                       nall=nall, nip=nip, nsrc=nsrc, ndst=ndst, mb=mb, maxops=maxops,
                       fill="TRUE" if fill else "FALSE",
                       devs=", ".join('"%s"' % d for d in devs),
-                      eager="TRUE" if eager else "FALSE", gen="TRUE" if gen else "FALSE", tail=tail)
+                      remote="TRUE" if remote else "FALSE", eager="TRUE" if eager else "FALSE", gen="TRUE" if gen else "FALSE", tail=tail)
 
 
 # exhaustive design configurations (deviations off): name -> (cfg text, workers)
@@ -78,6 +79,9 @@ def mc_configs(thorough):
                             ndst="0", maxops=2), 3),
         # destination scope, three deliveries, N in {1,2}
         "mc-3x-dest": (cfg(msgs=3, ips=1, srcs=1, dsts=2, nall="0,1", nip="0", nsrc="0", ndst="1,2"), 3),
+        # remote deliveries as callers (End = Close, next-hop MAIL refusal)
+        "mc-remote": (cfg(msgs=2, ips=1, srcs=1, dsts=2, nall="0,1", nip="0", nsrc="0,1", ndst="1,2",
+                          remote=True), 2),
     }
     if thorough:
         c.update({
@@ -99,7 +103,7 @@ ASIS = {
     "NilBucketDeref": dict(devs=["NeverReap", "NilBucketDeref"], nall="0,1", nip="1", nsrc="0", ndst="0",
                            ips=3, srcs=1),
     "ReapInUse": dict(devs=["ReapInUse"], nall="0", nip="1", nsrc="0", ndst="0", ips=3, srcs=1, maxops=2),
-    "MailRejectNoRelease": dict(devs=["MailRejectNoRelease"], nall="0", nip="0", nsrc="0", ndst="1"),
+    "MailRejectNoRelease": dict(devs=["MailRejectNoRelease"], nall="0", nip="0", nsrc="0", ndst="1", remote=True),
     "ReleaseOtherKey": dict(devs=["ReleaseOtherKey"], nall="0", nip="0", nsrc="1", ndst="0"),
 }
 
@@ -111,17 +115,73 @@ def load_findings():
     return [f for f in json.load(open(p)).get("findings", []) if f.get("property") == "C11"]
 
 
+LEVELS = {"api": ("api",), "remote": ("api", "remote")}
+
+
 def open_devs(findings, level):
-    """deviation name -> finding, for the open entries of this level only."""
+    """deviation name -> finding, for the open entries visible at this level (a defect of
+    limits.Group itself, level "api", is also visible through the remote target)."""
     out = {}
     for f in findings:
         if f.get("status", "open") != "open":
             continue
         m = f.get("match", {})
-        if m.get("level", "api") != level or "deviation" not in m:
+        if m.get("level", "api") not in LEVELS[level] or "deviation" not in m:
             continue
         out[m["deviation"]] = f
     return out
+
+
+def trace_cfg(odev, remote):
+    devs = sorted(set(odev) | set(w for f in odev.values() for w in f["match"].get("with", [])))
+    return cfg(msgs=3, probers=3, ips=8, srcs=8, dsts=8, nall="0", nip="0", nsrc="0", ndst="0", mb="1",
+               maxops=99, fill=True, devs=devs, eager=True, gen=False, tail=TRACE_TAIL, strings=True,
+               spec="TSpec", remote=remote)
+
+
+def classify(ctx, verdicts, by_t, by_id, odev, selftest, stats, level):
+    """verdict records of one level -> accepted / drift / known finding / violation"""
+    for t, recs in sorted(verdicts.items()):
+        mon = [r for r in recs if r["drift"] and not r.get("hw")]
+        conf = [r for r in recs if not r["drift"]]
+        hw = [r["driftAt"] for r in recs if r.get("hw")]
+        if not mon:
+            raise vlib.Infra("trace %s: no monitor verdict" % t)
+        viol = sorted(set(v for r in mon for v in r["viol"]))
+        if t in selftest:
+            if conf:
+                raise vlib.Infra("binding self-test failed: %s trace was accepted" % selftest[t])
+            continue
+        if viol:
+            # known finding: the as-is model explains the whole trace, the deviations it took are all
+            # open entries, and every violated predicate is one such a deviation produces
+            expl = None
+            for r in conf:
+                dv = set(r["devs"])
+                main = dv & set(odev)
+                allowed = set(p for d in main for p in odev[d]["match"].get("predicates", []))
+                extra_ok = set(w for d in main for w in odev[d]["match"].get("with", []))
+                if main and dv <= (set(odev) | extra_ok) and set(viol) <= allowed:
+                    expl = sorted(main)
+                    break
+            if expl:
+                for d in expl:
+                    f = odev[d]
+                    ctx.known(f["id"], f["what"])
+                    stats["kf"][f["id"]] = stats["kf"].get(f["id"], 0) + 1
+                continue
+            for v in viol:
+                stats["preds"][v] = stats["preds"].get(v, 0) + 1
+            what = "limits.Group (%s level) violates %s" % (level, ",".join(viol))
+            if conf:
+                what += " (as-is model: deviations %s)" % sorted(set(d for r in conf for d in r["devs"]))
+            ctx.violation(what, {"property": "C11", "level": level, "behaviour": by_id[t], "trace": by_t[t],
+                                 "violated": viol, "how": "bin/check C11 --replay <this file>"})
+        elif conf:
+            stats["ok"] += 1
+        else:
+            stats["drift"] += 1
+            print("DRIFT property=C11 level=%s trace=%d last-explained-seq=%s" % (level, t, hw[0] if hw else 0))
 
 
 def behaviours_from(r):
@@ -152,7 +212,7 @@ def interesting(b):
     return any(len(v) > 1 for v in keys.values())
 
 
-def validate_parallel(ctx, events, cfg_text, groups):
+def validate_parallel(ctx, events, cfg_text, groups, name="tv"):
     """ctx.validate over `groups` disjoint sets of traces in parallel."""
     ts = sorted(set(e["t"] for e in events))
     groups = max(1, min(groups, len(ts)))
@@ -162,7 +222,7 @@ def validate_parallel(ctx, events, cfg_text, groups):
         chunks[part[e["t"]]].append(e)
     verdicts, by_t = {}, {}
     with cf.ThreadPoolExecutor(max_workers=groups) as ex:
-        futs = [ex.submit(ctx.validate, "LimitsTrace", None, ch, KEEP, "tv%d" % i, cfg_text, 1500, 400)
+        futs = [ex.submit(ctx.validate, "LimitsTrace", None, ch, KEEP, "%s%d" % (name, i), cfg_text, 1500, 400)
                 for i, ch in enumerate(chunks)]
         for f in futs:
             v, b = f.result()
@@ -184,8 +244,9 @@ def run(ctx, replay):
         obj = json.load(open(replay))
         behs = [obj["behaviour"]]
         behs[0]["id"] = 1
+        behs[0]["level"] = obj.get("level", behs[0].get("level", "api"))
     else:
-        n_real, n_small, n_fit, n_fill = (2500, 700, 700, 200) if thorough else (240, 60, 60, 40)
+        n_real, n_small, n_fit, n_fill, n_rem = (2500, 700, 700, 200, 600) if thorough else (220, 60, 60, 40, 60)
         gens = {
             # the real table capacity, three callers, all four scopes
             "gen-real": (cfg(msgs=3, ips=3, srcs=2, dsts=2, nall="0,1,2", nip="0,1,2", nsrc="0,1,2",
@@ -203,6 +264,11 @@ def run(ctx, replay):
             "gen-fill": (cfg(msgs=2, ips=2, srcs=2, dsts=2, nall="0,1", nip="0,1", nsrc="0,1",
                              ndst="0,1", mb=str(REAL_MB), maxops=2, fill=True, eager=True, gen=True,
                              tail=GEN_TAIL, strings=True), n_fill, 40),
+            # remote level: deliveries of the remote target (Start / connectionForDomain / Close),
+            # the next hop may refuse MAIL
+            "gen-remote": (cfg(msgs=3, ips=2, srcs=2, dsts=2, nall="0,1", nip="0,1", nsrc="0,1,2",
+                               ndst="1,2", mb=str(REAL_MB), maxops=2, eager=True, gen=True, remote=True,
+                               tail=GEN_TAIL, strings=True), n_rem, 60),
         }
         gfut = {k: ex.submit(ctx.tlc, "Limits", None, name=k, workers=1, timeout=900,
                              simulate=max(40, n // 2), depth=d, cfg_text=t) for k, (t, n, d) in gens.items()}
@@ -211,7 +277,7 @@ def run(ctx, replay):
             mc_futs[name] = ex.submit(ctx.tlc, "LimitsMC", None, name=name, workers=w,
                                       timeout=3000 if thorough else 600, cfg_text=text)
         for name, kw in ASIS.items():
-            if not thorough and not (set(kw["devs"]) & set(odev)):
+            if not thorough and not (set(kw["devs"]) & set(open_devs(findings, "remote"))):
                 continue      # quick: non-vacuity of the open deviations only
             asis_futs[name] = ex.submit(ctx.tlc, "Limits", None, name="asis-" + name, workers=2, timeout=600,
                                         cfg_text=cfg(tail=ASIS_TAIL, strings=True, **kw))
@@ -228,6 +294,12 @@ def run(ctx, replay):
             hot = [b for b in got if interesting(b)]
             cold = [b for b in got if not interesting(b)]
             pick = vlib.sample(ctx.rng, hot, n - n // 10) + vlib.sample(ctx.rng, cold, n // 10)
+            if k == "gen-remote":
+                rej = [b for b in got if any(s["a"] == "MailReject" for s in b["hist"])]
+                pick = vlib.sample(ctx.rng, rej, n // 2)
+                pick += vlib.sample(ctx.rng, [b for b in got if not any(b is x for x in pick)], n - len(pick))
+                for b in pick:
+                    b["level"] = "remote"
             ctx.cov.setdefault("generated", {})[k] = {"printed": len(got), "replayed": len(pick)}
             behs += pick
         if not behs:
@@ -236,11 +308,13 @@ def run(ctx, replay):
             b["id"] = i + 1
             b["dual"] = ctx.rng.random() < 0.25
             b["probe"] = thorough or ctx.rng.random() < 0.6
-    ctx.log("%d behaviours to replay" % len(behs))
+    allbehs = behs
+    behs = [b for b in allbehs if b.get("level", "api") == "api"]
+    ctx.log("%d behaviours to replay (%d at the remote level)" % (len(allbehs), len(allbehs) - len(behs)))
 
     # ---- replay on the real limits.Group -----------------------------------------
     binary = ctx.build_harness("limitscheck")
-    events = ctx.run_shards(binary, behs)
+    events = ctx.run_shards(binary, behs) if behs else []
     ctx.log("replayed: %d events" % len(events))
     by_id = {b["id"]: b for b in behs}
 
@@ -266,56 +340,26 @@ def run(ctx, replay):
             events = events + c1 + c2
             selftest = {900001: "corrupt-field", 900002: "drop-event"}
 
-    tcfg = cfg(msgs=3, probers=3, ips=8, srcs=8, dsts=8, nall="0", nip="0", nsrc="0", ndst="0", mb="1",
-               maxops=99, fill=True, devs=sorted(set(odev) | set(w for f in odev.values()
-                                                             for w in f["match"].get("with", []))),
-               eager=True, gen=False, tail=TRACE_TAIL, strings=True, spec="TSpec")
-    verdicts, by_t = validate_parallel(ctx, events, tcfg, 1 if replay else (6 if thorough else 4))
+    stats = {"ok": 0, "drift": 0, "kf": {}, "preds": {}}
+    if events:
+        verdicts, by_t = validate_parallel(ctx, events, trace_cfg(odev, False), 1 if replay else (6 if thorough else 4),
+                                           "tv")
+        ctx.log("validated %d API-level traces" % len(verdicts))
+        classify(ctx, verdicts, by_t, by_id, odev, selftest, stats, "api")
+    else:
+        by_t = {}
 
-    ctx.log("validated %d traces" % len(verdicts))
-    ok = drift = 0
-    preds, kf_traces = {}, {}
-    for t, recs in sorted(verdicts.items()):
-        mon = [r for r in recs if r["drift"] and not r.get("hw")]
-        conf = [r for r in recs if not r["drift"]]
-        hw = [r["driftAt"] for r in recs if r.get("hw")]
-        if not mon:
-            raise vlib.Infra("trace %s: no monitor verdict" % t)
-        viol = sorted(set(v for r in mon for v in r["viol"]))
-        if t in selftest:
-            if conf:
-                raise vlib.Infra("binding self-test failed: %s trace was accepted" % selftest[t])
-            continue
-        if viol:
-            # known finding: the as-is model explains the whole trace, the deviations it took are all
-            # open entries, and every violated predicate is one such a deviation produces
-            expl = None
-            for r in conf:
-                dv = set(r["devs"])
-                main = dv & set(odev)
-                allowed = set(p for d in main for p in odev[d]["match"].get("predicates", []))
-                extra_ok = set(w for d in main for w in odev[d]["match"].get("with", []))
-                if main and dv <= (set(odev) | extra_ok) and set(viol) <= allowed:
-                    expl = sorted(main)
-                    break
-            if expl:
-                for d in expl:
-                    f = odev[d]
-                    ctx.known(f["id"], f["what"])
-                    kf_traces[f["id"]] = kf_traces.get(f["id"], 0) + 1
-                continue
-            for v in viol:
-                preds[v] = preds.get(v, 0) + 1
-            what = "limits.Group violates " + ",".join(viol)
-            if conf:
-                what += " (as-is model: deviations %s)" % sorted(set(d for r in conf for d in r["devs"]))
-            ctx.violation(what, {"property": "C11", "behaviour": by_id[t], "trace": by_t[t],
-                                 "violated": viol, "how": "bin/check C11 --replay <this file>"})
-        elif conf:
-            ok += 1
-        else:
-            drift += 1
-            print("DRIFT property=C11 trace=%d last-explained-seq=%s" % (t, hw[0] if hw else 0))
+    # ---- remote level: the callers are real remote deliveries ------------------------
+    rbehs = [b for b in allbehs if b.get("level") == "remote"]
+    if rbehs:
+        rdev = open_devs(findings, "remote")
+        revents = ctx.run_shards(binary, rbehs, test="TestReplayRemote", name="replay-remote")
+        ctx.log("remote level replayed: %d events" % len(revents))
+        rverd, rby_t = validate_parallel(ctx, revents, trace_cfg(rdev, True), 1 if replay else 2, "tvr")
+        classify(ctx, rverd, rby_t, {b["id"]: b for b in rbehs}, rdev, {}, stats, "remote")
+        by_t.update(rby_t)
+        ctx.cov["remote_level_traces"] = len(rverd)
+    ok, drift, kf_traces, preds = stats["ok"], stats["drift"], stats["kf"], stats["preds"]
 
     # ---- collect the exhaustive runs -------------------------------------------------
     if not replay:
